@@ -86,6 +86,7 @@ type Settings struct {
 	StackMarshal                                         int
 	GlobalLevel                                          zerolog.Level
 	Now                                                  time.Time
+	IfaceMarshal                                         int // InterfaceMarshalFunc: 0 zerolog's default, 1 wraps the default rendering as {"w":...}, 2 always fails
 	CallerFieldName                                      string
 	CallerText                                           string // "" = zerolog's default CallerMarshalFunc (Caller ops are then not generated); else a CallerMarshalFunc returning this text
 }
@@ -105,7 +106,7 @@ func (s Settings) String() string {
 	return fmt.Sprintf("{lvl=%q msg=%q ts=%q err=%q stack=%q tf=%q du=%d di=%v fpp=%d em=%d sm=%d gl=%d}",
 		s.LevelFieldName, s.MessageFieldName, s.TimestampFieldName, s.ErrorFieldName, s.ErrorStackFieldName,
 		s.TimeFieldFormat, int64(s.DurationFieldUnit), s.DurationFieldInteger, s.FloatingPointPrecision, s.ErrMarshal, s.StackMarshal, s.GlobalLevel) +
-		fmt.Sprintf("{caller=%q callerText=%q}", s.CallerFieldName, s.CallerText)
+		fmt.Sprintf("{caller=%q callerText=%q im=%d}", s.CallerFieldName, s.CallerText, s.IfaceMarshal)
 }
 
 // ---- error marshal variants -------------------------------------------------------------------
@@ -126,6 +127,8 @@ type ErrObj struct{ Msg string }
 func (o ErrObj) MarshalZerologObject(e *zerolog.Event) { e.Str("m", o.Msg) }
 
 var constOtherErr = errors.New("other\"err\n")
+
+var errCustomMarshal = errors.New("custom marshal failure \x01\"\xff")
 
 // errMarshalFunc returns the ErrorMarshalFunc for a variant. All variants are idempotent
 // (f(f(x)) == f(x) where f(x) is an error) because Event.Errs applies the function twice.
@@ -207,10 +210,24 @@ func (s *Settings) Apply() (restore func()) {
 		gl               zerolog.Level
 		cf               string
 		cm               func(uintptr, string, int) string
+		im               func(interface{}) ([]byte, error)
 	}{zerolog.LevelFieldName, zerolog.MessageFieldName, zerolog.TimestampFieldName, zerolog.ErrorFieldName,
 		zerolog.ErrorStackFieldName, zerolog.TimeFieldFormat, zerolog.DurationFieldUnit, zerolog.DurationFieldInteger,
 		zerolog.FloatingPointPrecision, zerolog.ErrorMarshalFunc, zerolog.ErrorStackMarshaler, zerolog.TimestampFunc, zerolog.GlobalLevel(),
-		zerolog.CallerFieldName, zerolog.CallerMarshalFunc}
+		zerolog.CallerFieldName, zerolog.CallerMarshalFunc, zerolog.InterfaceMarshalFunc}
+	switch s.IfaceMarshal {
+	case 1:
+		def := zerolog.InterfaceMarshalFunc
+		zerolog.InterfaceMarshalFunc = func(v interface{}) ([]byte, error) {
+			b, err := def(v)
+			if err != nil {
+				return nil, err
+			}
+			return append(append([]byte(`{"w":`), b...), '}'), nil
+		}
+	case 2:
+		zerolog.InterfaceMarshalFunc = func(v interface{}) ([]byte, error) { return nil, errCustomMarshal }
+	}
 	if s.CallerFieldName != "" || s.CallerText != "" {
 		zerolog.CallerFieldName = s.CallerFieldName
 	}
@@ -239,6 +256,7 @@ func (s *Settings) Apply() (restore func()) {
 		zerolog.ErrorMarshalFunc, zerolog.ErrorStackMarshaler, zerolog.TimestampFunc = o.em, o.sm, o.ts
 		zerolog.SetGlobalLevel(o.gl)
 		zerolog.CallerFieldName, zerolog.CallerMarshalFunc = o.cf, o.cm
+		zerolog.InterfaceMarshalFunc = o.im
 	}
 }
 
